@@ -346,7 +346,7 @@ def run(ctx):
     proofs_ok = ctx.standard_proof_stage("C14", search=lambda: search_failing(ctx))
     viol, dis, hang = [], [], []
     stats = {"loads": 0, "outcomes": {}, "exc_types": {}, "memory_damages": 0, "recomputed": 0, "zfile_cases": 0,
-             "truncation_of_checked": 0, "old_model_spins": 0, "readbytes": {}}
+             "truncation_of_checked": 0, "old_model_spins": 0, "readbytes": {}, "junk": {}}
     nontrivial = set()
 
     # ---- 2. file-object layer vs model
@@ -421,6 +421,19 @@ def run(ctx):
             stats["exc_types"][k] = stats["exc_types"].get(k, 0) + n
         for n, ch in zip(r["points"], r["codes"]):
             nontrivial.add(json.dumps([c["obj"], c["compress"], c.get("protocol"), n]))
+    # ---- 3b. files that only look compressed (magic prefix + junk): must return or raise, never hang
+    jcases = [{"kind": "junk", "seed": ctx.rng.randrange(10 ** 6), "lens": [0, 1, 7, 100, 9000]} for _ in range(2 if quick else 8)]
+    for c, r in zip(jcases, run_watchdog(jcases, nproc=4)):
+        if "watchdog" in r:
+            hang.append(("load of a magic prefix + junk file got no result: " + r["watchdog"], c))
+            continue
+        if "harness_error" in r:
+            viol.append(("harness error: " + r["harness_error"][:300], c))
+            continue
+        for name, n, kind, code, info in r["results"]:
+            stats["junk"][code] = stats["junk"].get(code, 0) + 1
+            if code == "H":
+                hang.append(("load of %s magic + %d bytes of %s never returned (%s)" % (name, n, kind, info), c))
     # ---- 4. _read_bytes
     rb_cases = gen_readbytes(ctx.rng, 400 if quick else 3000)
     rb_res = run_watchdog(rb_cases, nproc=4)
@@ -519,6 +532,7 @@ def run(ctx):
         "truncated_scripts_checked_against_truncation_of": stats["truncation_of_checked"],
         "pre_fix_model_spins_on_trailers": stats["old_model_spins"],
         "read_bytes_outcomes": stats["readbytes"],
+        "magic_plus_junk_outcomes(R raises, V value)": stats["junk"],
         "memory_damages": stats["memory_damages"],
         "memory_recomputations": stats["recomputed"],
         "numpy_cases": len(np_cases),
